@@ -106,6 +106,9 @@ def subst_byte(b, how):
         return b ^ 0x01
     if how == "x80":
         return b ^ 0x80
+    if how.startswith("="):		# an explicit value (if it is the original one, the next one)
+        v = int(how[1:], 16)
+        return v if v != b else (v + 1) & 0xFF
     if how == "dec":
         return (b - 1) & 0xFF
     if how == "inc":
@@ -364,6 +367,16 @@ def gen_damages(rng, subj, tier):
                 for o in range(lo, hi):
                     for v in SUBST_VALUES + COUNT_VALUES:
                         offs[(o, v)] = 1
+        # every value of every header / section-table byte: exhaustive for the smallest object file in
+        # the thorough tier, a seeded sample of (offset, value) pairs for every object file otherwise
+        if subj["kind"] == "ao":
+            if tier == "thorough" and subj["file"] == "hello.ao":
+                for o in range(0, min(n, 165)):
+                    for v in range(256):
+                        offs[(o, "=%02x" % v)] = 1
+            else:
+                for _ in range(60 if tier == "quick" else 600):
+                    offs[(rng.below(min(n, 165)), "=%02x" % rng.below(256))] = 1
         for lo, hi, nm in subj["regions"]:
             if nm.startswith(("payload.", "member.payload.")):
                 for o in range(lo, min(hi, lo + (16 if tier == "thorough" else 4))):
